@@ -201,7 +201,45 @@ def p_steam_fraction(e, stages):
     e.explore(prog, 'steam_fraction')
 
 
-PROGRAMS_QUICK = [('o_maxwell', 'supst'), ('o_maxwell', 'cowat'), ('p_bounds_cowat', None), ('p_bounds_supst', None), ('p_bounds_sat', None),
+def p_tsat_residual(e, bounds):
+    """The residual function tsat hands to fsolve is defined (raises nothing) for every trial
+    temperature inside sat's own unchecked domain [0.01, 500] - with range checking on and off.
+    (fsolve is external: it is replaced by one call of the residual at an arbitrary such temperature.)"""
+    tag = '[bounds=%s]' % bounds
+    def prog(e):
+        e.assume_nonzero_div = True
+        mod = e.load_module('t2thermo')
+        from pyvc.engine import Builtin
+        state = {'called': 0, 'raised': None}
+        def fake_fsolve(eng, f, x0, *a, **k):
+            t = z3.Real('trial_t')
+            eng.inputs['trial_t'] = t
+            eng.assume(z3.And(t >= z3.RealVal('0.01'), t <= 500))
+            state['called'] += 1
+            try:
+                eng.call(f, [NVec([t])])
+            except PyExc as ex:
+                state['raised'] = ex.cls
+            return NVec([z3.Real('root')])
+        saved = L.MODULES['scipy.optimize']['fsolve']
+        L.MODULES['scipy.optimize']['fsolve'] = Builtin('fsolve', fake_fsolve)
+        try:
+            p = e.sym_real('p')
+            e.assume(z3.And(p >= 612, p <= L.to_real(mod.globals['Pc1'])))
+            try:
+                e.call(mod.globals['tsat'], [p, bounds])
+            except PyExc as ex:
+                state['raised'] = state['raised'] or ex.cls
+        finally:
+            L.MODULES['scipy.optimize']['fsolve'] = saved
+        if state['raised']:
+            e.fail('safety:tsat_residual_defined_on_sat_domain' + tag, 'raises %s' % state['raised'])
+        else:
+            e.prove(state['called'] >= 1 or not e.feasible(z3.BoolVal(True)), 'safety:tsat_residual_defined_on_sat_domain' + tag)
+    e.explore(prog, 'tsat_residual')
+
+
+PROGRAMS_QUICK = [('p_tsat_residual', False), ('p_tsat_residual', True), ('o_maxwell', 'supst'), ('o_maxwell', 'cowat'), ('p_bounds_cowat', None), ('p_bounds_supst', None), ('p_bounds_sat', None),
                   ('p_bounds_tsat', None), ('p_regions_agree', None), ('p_steam_fraction', 1), ('p_steam_fraction', 2)]
 PROGRAMS_THOROUGH = PROGRAMS_QUICK
 
@@ -242,6 +280,15 @@ def replay(obname, model, result):
                 "    r = T.sat(t, True)\n"
                 "    if (r is None) == (0.01 <= t <= T.Tc1_C):\n"
                 "        ok, detail = False, 'sat(%%r, True) = %%r' %% (t, r); break\n") % _fl(m['t'])
+    if prog == 'p_tsat_residual':
+        return ("import t2thermo as T\n"
+                "ok, detail = True, ''\n"
+                "for p in (612., 1e5, 1e6, 1e7, 2e7, 2.19e7, 2.2e7, 2.21e7, 2.2119e7, T.Pc1):\n"
+                "    try:\n"
+                "        r = T.tsat(p, %r)\n"
+                "        if r is None or abs(T.sat(r) - p) > 1e-6 * p: ok, detail = False, 'tsat(%%r) = %%r' %% (p, r)\n"
+                "    except Exception as ex:\n"
+                "        ok, detail = False, 'tsat(%%r, bounds=%r) raises %%s: %%s' %% (p, type(ex).__name__, ex)\n") % (result['arg'], result['arg'])
     if prog == 'p_bounds_tsat' and 'p' in m:
         return ("import t2thermo as T\n"
                 "ok, detail = True, ''\n"
